@@ -10,9 +10,11 @@ CLAIMED = {
  "C14": dict(
    text="Lean theorems (all identifier strings, unbounded): lv_pack/lv_unpack round trip, DIVIDER join/split round trip and injectivity under the forced "
         "SepFree guard with counter-example theorems for the guard, session-id resolution; the literal model of the flat session db (set/delete/"
-        "delete_sub_tree/revoke_tree/create/exchange/remove/flush) is tied to the code by correspondence on op histories with hostile identifiers, "
+        "delete_sub_tree/revoke_tree/create/exchange/remove/flush) — for which key uniqueness over all histories and the locality of creation are proved — is tied to the code by correspondence on op histories with hostile identifiers, "
         "and a tree-consistency/locality oracle runs after every step.",
-   note="Tree invariant is checked by oracle + correspondence on histories, proved only for the codec part so far; Fernet idealised.",
+   note="Proved for the tree: one node per path in every reachable state (session_tree_keys_unique, over all operations), a created grant is "
+        "stored as created and creation touches its own branch only (created_grant_is_stored, creation_is_local). Reachability from the parent "
+        "and the exact extent of a removal are checked by oracle + correspondence on histories, not proved; Fernet idealised.",
    technique="Lean 4 proof (induction on strings) + model/implementation correspondence on operation histories", ref="6 C14"),
  "C17": dict(
    text="Lean theorems for every value/type/timestamp string and every crypto instance satisfying functional correctness (Sound): round trip in "
